@@ -169,6 +169,30 @@ fn cases<TC: ModelCfg>(quick: bool) -> Vec<Case> {
         ];
         out.push(Case { name: format!("poller/{rname}"), sc, bound: if quick { 2 } else { 3 } });
     }
+    // ---- poller + writer + two concurrent requests on the polling instance (one holds the cache lock
+    // shared while the poller waits for it exclusively; the other may be lock-free)
+    {
+        let ops = reader_ops::<TC>(1);
+        let pick = |n: &str| ops.iter().find(|(k, _)| k == n).unwrap().1.clone();
+        let pairs: Vec<(&str, &str)> = if quick {
+            vec![("lookup_a", "epoch_hash"), ("lookup_a", "lookup_b")]
+        } else {
+            vec![("lookup_a", "epoch_hash"), ("lookup_a", "lookup_b"), ("history_a_complete", "epoch_hash"), ("history_a_complete", "lookup_a"), ("audit", "epoch_hash"), ("batch_lookup_ab", "history_a_recent1")]
+        };
+        for (r1, r2) in pairs {
+            let mut sc = base_sc();
+            sc.initial = initial.clone();
+            sc.reader_cache = CacheCfg::Default;
+            sc.reader_warmup = vec![Op::EpochHash, Op::Lookup(a.clone()), Op::Lookup(b.clone())];
+            sc.poller = true;
+            sc.actors = vec![
+                Actor { name: "W".into(), inst: Inst::Writer, ops: vec![Op::Publish(w1.clone())] },
+                Actor { name: "R1".into(), inst: Inst::ReadOnly, ops: vec![pick(r1)] },
+                Actor { name: "R2".into(), inst: Inst::ReadOnly, ops: vec![pick(r2), pick(r2)] },
+            ];
+            out.push(Case { name: format!("poller_two_readers/{r1}+{r2}"), sc, bound: if quick { 2 } else { 3 } });
+        }
+    }
     // ---- (b) lag matrix
     let warmups: Vec<(&str, Vec<Op>)> = vec![
         ("cold", vec![]),
@@ -212,7 +236,8 @@ fn judge<TC: ModelCfg>(rep: &Report, case: &Case, out: &RunOut, ch: &Chooser) {
     let fam: Vec<&str> = case.name.split('/').collect();
     let ident = |kind: &str| format!("{}/{}/{}", TC::NAME, fam.join("/"), kind);
     let detail = |extra: serde_json::Value| {
-        json!({"scenario": sc.describe(), "choices": ch.choices(), "deviations": ch.cost(), "schedule": show_steps(out), "observed": extra})
+        json!({"scenario": sc.describe(), "choices": ch.choices(), "deviations": ch.cost(), "schedule": show_steps(out), "observed": extra,
+               "choice_points": ch.points.iter().filter(|p| p.picked != 0).map(|p| format!("picked {} (cost {}) among: {}", p.picked, p.costs[p.picked as usize], p.label)).collect::<Vec<_>>()})
     };
     if out.horizon {
         if out.idle_taken > 0 {
@@ -273,10 +298,19 @@ fn judge<TC: ModelCfg>(rep: &Report, case: &Case, out: &RunOut, ch: &Chooser) {
 
 fn run_cfg<TC: ModelCfg>(args: &Args, rep: &Report) {
     let quick = args.quick();
-    let cs = cases::<TC>(quick);
+    let mut cs = cases::<TC>(quick);
+    if let Ok(f) = std::env::var("AKDMC_ONLY") {
+        cs.retain(|c| c.name.contains(&f));
+        if let Ok(b) = std::env::var("AKDMC_BOUND") {
+            for c in cs.iter_mut() {
+                c.bound = b.parse().unwrap();
+            }
+        }
+    }
     rep.count(&format!("{}:scenarios", TC::NAME), cs.len() as u64);
-    // scenarios are independent: run them in parallel, each explored sequentially inside
-    crate::explore::par_for(args.threads, &cs, |_, case| {
+    // scenarios are independent: the light ones run in parallel (each explored on one thread), the
+    // heavy ones (poller: long executions, many schedules) one after another on all threads
+    let one = |case: &Case, threads: usize| {
         let cap = if quick { 20_000 } else { 400_000 };
         let mut c1 = Chooser::default_run();
         let o1 = run_scenario::<TC>(&case.sc, &mut c1);
@@ -286,7 +320,7 @@ fn run_cfg<TC: ModelCfg>(args: &Args, rep: &Report) {
             eprintln!("MACHINERY ERROR: scenario {} is not deterministic under the default schedule", case.name);
             std::process::exit(2);
         }
-        let stats = explore(1, case.bound, cap, |ch| {
+        let stats = explore(threads, case.bound, cap, |ch| {
             let out = run_scenario::<TC>(&case.sc, ch);
             rep.eval(1);
             rep.states(out.steps.len() as u64, out.steps.len() as u64);
@@ -297,7 +331,12 @@ fn run_cfg<TC: ModelCfg>(args: &Args, rep: &Report) {
             rep.cap_hit(format!("{} {} execution cap {} hit at bound {}", TC::NAME, case.name, cap, case.bound));
         }
         rep.count(&format!("{}:executions:{}", TC::NAME, case.name.split('/').next().unwrap()), stats.executions);
-    });
+    };
+    let (heavy, light): (Vec<Case>, Vec<Case>) = cs.into_iter().partition(|c| c.sc.poller && c.sc.actors.len() >= 2);
+    crate::explore::par_for(args.threads, &light, |_, case| one(case, 1));
+    for case in &heavy {
+        one(case, args.threads);
+    }
 }
 
 pub fn run(args: &Args) -> i32 {
